@@ -218,9 +218,21 @@ Definition set_inst_name (idx : nat) (nm : str) (m : model) : result model :=
   else Ok (upd_inst idx (fun i => set_iname i (Some nm)) m).
 
 (* ---------- header ---------- *)
+(* parse_input_ports on a port that an earlier .outputs line created (direction OUT or INOUT): it becomes an
+   INOUT port, the pin is not connected again - the mirror image of the .outputs filter of do_output *)
+Definition input_io (cur p : str) (ms : list model) : bool :=
+  match find_port p (m_ports (get_model cur ms)) with
+  | Some q => dir_eqb (p_dir q) DOut || dir_eqb (p_dir q) DInout
+  | None => false
+  end.
+
 Definition do_input (al : mtable) (cur : str) (acc : result (list model)) (tok : str) : result (list model) :=
   do ms <- acc;
   do '(p, i) <- pni tok;
+  if input_io cur p ms then
+    Ok (grow_port cur p (S i)
+         (upd_model cur (fun m => set_ports m (upd_port p (fun q => set_pdir q DInout) (m_ports m))) ms))
+  else
   let ms1 := match find_port p (m_ports (get_model cur ms)) with
              | None => add_port cur (mkPort p DIn 0) ms
              | Some _ => upd_model cur (fun m => set_ports m (upd_port p (fun q => set_pdir q DIn) (m_ports m))) ms
